@@ -5,6 +5,7 @@ package e1
 import (
 	"errors"
 	"fmt"
+	"os"
 	"reflect"
 	"sort"
 	"sync"
@@ -124,6 +125,7 @@ type rt struct {
 	nextEv     int64
 	done       chan struct{}
 	activity   int64
+	sink       bool // child process of a setup-failure scenario: every trace event is also written to stdout at once
 }
 
 type srcCmd struct {
@@ -133,8 +135,9 @@ type srcCmd struct {
 }
 
 type srcPhase struct {
-	count int
-	ok    bool
+	count     int
+	ok        bool
+	setupFail bool // Setup of this incarnation returns an error
 }
 
 var cur *rt
@@ -146,6 +149,10 @@ func (r *rt) log(t sx.Tree) {
 	r.mu.Lock()
 	r.trace = append(r.trace, t)
 	r.activity++
+	if r.sink {
+		// unbuffered: the executor may end the process (os.Exit) right after this event
+		_, _ = os.Stdout.WriteString("T " + t.String() + "\n")
+	}
 	r.mu.Unlock()
 }
 
@@ -496,6 +503,8 @@ type hsrc struct {
 	r   *rt
 	ch  chan firebolt.Event
 	inc int
+	// Setup returned an error: a Start of this instance is logged and ends the run at once
+	noSetup bool
 }
 
 func (s *hsrc) Init(id string, ctx fbcontext.FBContext) {
@@ -509,7 +518,13 @@ func (s *hsrc) Setup(cfg map[string]string, ch chan firebolt.Event) error {
 	s.r.mu.Lock()
 	s.inc = s.r.srcInc
 	s.r.srcInc++
+	fail := !s.r.lock && s.inc < len(s.r.script) && s.r.script[s.inc].setupFail
 	s.r.mu.Unlock()
+	if fail {
+		s.noSetup = true
+		s.r.log(sx.T(sx.L(12), sx.L(int64(s.inc))))
+		return errors.New("scripted setup failure")
+	}
 	s.r.log(sx.T(sx.L(1), sx.L(int64(s.inc))))
 	return nil
 }
@@ -555,6 +570,10 @@ func (s *hsrc) Start() error {
 				return errors.New("scripted source failure")
 			}
 		}
+		return nil
+	}
+	if s.noSetup {
+		s.r.log(sx.T(sx.L(3), sx.L(int64(s.inc)), sx.L(1)))
 		return nil
 	}
 	ph := srcPhase{count: 0, ok: true}
